@@ -60,6 +60,8 @@ func itemShapesBase(c *Counter, mk func(n string, it ap.Item) Shaped) []Shaped {
 		mk("obj:OrderedCollectionPage", &ap.OrderedCollectionPage{ID: c.ID("c"), Type: ap.OrderedCollectionPageType, PartOf: c.ID("partof")}),
 		mk("link", &ap.Link{Type: ap.MentionType, Href: c.ID("h")}),
 		mk("link-id", &ap.Link{ID: c.ID("l"), Type: ap.LinkType, Href: c.ID("h")}),
+		// a link relation is a registered name ("me", "canonical"), not a URL
+		mk("link-rel-name", &ap.Link{Type: ap.LinkType, Href: c.ID("h"), Rel: "me"}),
 		mk("objval:Object", ap.Object{ID: c.ID("o"), Type: ap.NoteType}),
 		mk("objval:Actor", ap.Actor{ID: c.ID("p"), Type: ap.ServiceType, Outbox: c.ID("outbox")}),
 		mk("objval:Activity", ap.Activity{ID: c.ID("a"), Type: ap.AnnounceType, Object: c.ID("o")}),
